@@ -107,10 +107,9 @@ func (v *StructSchema) process(ctx *p.SchemaCtx) {
 	for key, processor := range v.schema {
 		originalKey := key
 		if key[0] >= 'a' && key[0] <= 'z' {
-			var b [32]byte // Use a size that fits your max key length
-			copy(b[:], key)
+			b := []byte(key) // keys may be longer than any fixed-size buffer
 			b[0] -= 32
-			key = string(b[:len(key)])
+			key = string(b)
 		}
 
 		fieldMeta, ok := structVal.Type().FieldByName(key)
@@ -186,10 +185,9 @@ func (v *StructSchema) validate(ctx *p.SchemaCtx) {
 	for key, schema := range v.schema {
 		fieldKey := key
 		if key[0] >= 'a' && key[0] <= 'z' {
-			var b [32]byte // Use a size that fits your max key length
-			copy(b[:], key)
+			b := []byte(key) // keys may be longer than any fixed-size buffer
 			b[0] -= 32
-			key = string(b[:len(key)])
+			key = string(b)
 		}
 
 		fieldMeta, ok := refVal.Type().FieldByName(key)
